@@ -5,7 +5,7 @@ format (PP.Spec.ZCash).
 * `ZCash.Coord.Lawful`, `Codec.Lawful`: what the generic proofs use about a coordinate format and about a
   model `Codec` implementing it; proved for `g1Codec`/`fqCoord` and `g2Codec`/`fq2Coord` (the latter uses
   facts about `Fq` only — `Fq2` is a plain pair — so no field structure on `Fq2` is needed).
-* curve-level facts: `Aff.isOnCurve_iff`, `Aff.inSubgroup_of_infinity`, the characterisation of
+* curve-level facts: `Aff.isOnCurve_iff_eq`, `Aff.inSubgroup_of_infinity`, the characterisation of
   `Aff.getPointFromX` by the spec's `root?`/`Selected` (with the `y = 0` case).
 * `decode…_eq`: each of the four decoders, on inputs of the right length, IS the ordered validation
   `ZCash.validate`; `validate_checked_eq`: checked = unchecked + curve/subgroup tests;
@@ -179,14 +179,14 @@ theorem g2Codec_lawful : g2Codec.Lawful ZCash.fq2Coord where
 section curve
 variable {F : Type} [Field F] [DecidableEq F] [FieldOps F] [LawfulFieldOps F]
 
-theorem Aff.isOnCurve_iff (b : F) (A : Aff F) :
+theorem Aff.isOnCurve_iff_eq (b : F) (A : Aff F) :
     Aff.isOnCurve b A = true ↔ A.infinity = true ∨ A.y * A.y = A.x * A.x * A.x + b := by
   unfold Aff.isOnCurve
   cases h : A.infinity <;> simp [LawfulFieldOps.sq_eq]
 
 theorem Aff.isOnCurve_finite (b x y : F) :
     Aff.isOnCurve b ⟨x, y, false⟩ = true ↔ y * y = x * x * x + b := by
-  rw [Aff.isOnCurve_iff]; simp
+  rw [Aff.isOnCurve_iff_eq]; simp
 
 theorem Aff.isOnCurve_zero (b : F) : Aff.isOnCurve b (Aff.zero : Aff F) = true := rfl
 
@@ -562,7 +562,7 @@ theorem postcheck_u (b : F) (a : Aff F) :
     have h1 : Aff.isOnCurve b a = true := by unfold Aff.isOnCurve; rw [if_pos hi]
     rw [h1, Aff.inSubgroup_of_infinity b a hi]; rfl
   · rw [if_neg hi]
-    have hiff := Aff.isOnCurve_iff b a
+    have hiff := Aff.isOnCurve_iff_eq b a
     have hf : a.infinity = false := by simpa using hi
     rw [hf] at hiff
     simp only [Bool.false_eq_true, false_or] at hiff
@@ -800,7 +800,7 @@ theorem decodeCompressedUnchecked_encode (L : cc.Lawful C) (A : Aff F)
     have hrw := L.read_write "x" A.x
     rw [hw] at hrw
     have hcurve : A.y * A.y = A.x * A.x * A.x + cc.b := by
-      have := (Aff.isOnCurve_iff cc.b A).mp hc
+      have := (Aff.isOnCurve_iff_eq cc.b A).mp hc
       rw [hf] at this; simpa using this
     have hA : A = ⟨A.x, A.y, false⟩ := by cases A; simp_all
     rw [hw]
@@ -1078,7 +1078,7 @@ theorem neg_ne_self_of_ne_zero (h2 : (2 : F) ≠ 0) (y : F) (hy : y ≠ 0) : -y 
 theorem y_ne_zero_of_onCurve (hno2 : ∀ x : F, x * x * x + cc.b ≠ 0) (A : Aff F)
     (hc : Aff.isOnCurve cc.b A = true) (hf : A.infinity = false) : A.y ≠ 0 := by
   intro h0
-  have := (Aff.isOnCurve_iff cc.b A).mp hc
+  have := (Aff.isOnCurve_iff_eq cc.b A).mp hc
   rw [hf, h0] at this
   simp only [Bool.false_eq_true, false_or, mul_zero] at this
   exact hno2 A.x this.symm
